@@ -921,6 +921,35 @@ fn run_from_der(input: &[u8]) -> Outcome {
     }
 }
 
+/// `Ed25519KeyPair::new` on a private key taken from a key file / a PKCS#8 field (raw 32 bytes, or wrapped
+/// in an OCTET STRING header `04 20`)
+fn run_key_pair_new(input: &[u8]) -> Outcome {
+    // Ed25519, 1.3.101.112
+    let oid = pkcs8::ObjectIdentifier::new_unwrap("1.3.101.112");
+    match Ed25519KeyPair::new(oid, input, None, "1".into()) {
+        Ok(kp) => {
+            let mut d = Dig::new();
+            d.dbg(&kp.public_key());
+            d.done()
+        }
+        Err(e) => rej(e),
+    }
+}
+
+fn key_pair_new_seeds() -> Vec<Vec<u8>> {
+    let raw: Vec<u8> = KEY_SEED.to_vec();
+    let mut wrapped = vec![0x04, 0x20];
+    wrapped.extend_from_slice(&raw);
+    vec![raw, wrapped]
+}
+
+/// a wrapped key followed by more bytes (the start of the next PKCS#8 field): rejected, fed as it is
+fn key_pair_new_trailing() -> Vec<u8> {
+    let mut v = key_pair_new_seeds().swap_remove(1);
+    v.extend_from_slice(&[0xA1, 0x23, 0x03, 0x21, 0x00]);
+    v
+}
+
 fn run_base64(input: &[u8]) -> Outcome {
     let mut d = Dig::new();
     d.dbg(&Base64::<UrlSafe>::parse(input).map(|b| b.encode()).map_err(|e| e.to_string()));
@@ -1488,6 +1517,7 @@ pub fn entries() -> Vec<Entry> {
             vec![vec![0xA1, 0x23, 0x03, 0x21], vec![], vec![0x30], vec![0x30, 0x04, 0xA1, 0x23, 0x03, 0x21]],
             run_from_der,
         ),
+        entry("ed25519_key_pair_new", Kind::Bytes, key_pair_new_seeds(), &[0x04, 0x20, 0x21, 0x22], vec![key_pair_new_trailing()], run_key_pair_new),
         entry(
             "base64_parse",
             Kind::Bytes,
